@@ -329,10 +329,19 @@ func rawBits(data any) ([]uint64, bool) {
 
 // FromG reads a gorgonia tensor in *logical* row-major order into a reference tensor.
 // The dtype `int` (gorgonia's native int) is reported as a distinct error by the caller via dtype check.
-func FromG(t tensor.Tensor) (*ref.T, error) {
+func FromG(t tensor.Tensor) (out *ref.T, err error) {
 	if t == nil {
 		return nil, nil
 	}
+	defer func() {
+		if p := recover(); p != nil {
+			out, err = nil, fmt.Errorf("tensor is internally inconsistent (reading it panics: %v); shape %v", p, t.Shape())
+		}
+	}()
+	return fromG(t)
+}
+
+func fromG(t tensor.Tensor) (*ref.T, error) {
 	dt, ok := DTOf(t.Dtype())
 	if !ok {
 		return nil, fmt.Errorf("unsupported dtype %v", t.Dtype())
